@@ -14,7 +14,7 @@ use insim::{net::Codec, Packet};
 
 use crate::{
     link::{AppRes, Ev, LinkState, SimStream},
-    model::{ref_decode_packet, take_panic_msg},
+    model::{enter_guard, leave_guard, ref_decode_packet, take_panic_msg},
     scenario::{AppOp, Imp, StreamScenario},
 };
 
@@ -67,6 +67,7 @@ fn is_terminal(r: &AppRes) -> bool {
 
 pub fn run_blocking(sc: &StreamScenario) -> StreamOutcome {
     use insim::net::blocking_impl::Framed;
+    enter_guard();
     let link = Arc::new(Mutex::new(LinkState::new(
         false,
         sc.inbound.clone(),
@@ -160,6 +161,7 @@ pub fn run_blocking(sc: &StreamScenario) -> StreamOutcome {
         }
     }
     drop(framed);
+    leave_guard();
     finish(link)
 }
 
@@ -183,6 +185,7 @@ async fn poll_once<F: Future + ?Sized>(fut: &mut Pin<Box<F>>) -> Polled<F::Outpu
 
 pub fn run_tokio(sc: &StreamScenario) -> StreamOutcome {
     use insim::net::tokio_impl::Framed;
+    enter_guard();
     let rt = tokio::runtime::Builder::new_current_thread()
         .enable_time()
         .start_paused(true)
@@ -366,5 +369,6 @@ pub fn run_tokio(sc: &StreamScenario) -> StreamOutcome {
         drop(framed);
     });
     drop(rt);
+    leave_guard();
     finish(link)
 }
